@@ -304,12 +304,13 @@ def fam_fold_chain(rng: Rng) -> str:
     skipped) next to members where the same op with the same dtypes folds fine."""
     a, b = rng.choice([1.0, 2.0, -3.0]), rng.choice([0.5, 4.0])
     # each "cannot be evaluated" variant sits next to its "folds fine" twin (same op, same dtypes, same opset version)
-    v = _variant(rng, [("float_ok", 4), ("float_bad_broadcast", 2), ("int_pow_ok", 2), ("int_pow_negative", 2), ("reshape_ok", 1),
-                       ("reshape_bad", 1), ("int_div_ok", 1), ("int_div_zero", 1), ("float_not_foldable", 2)])
+    v = _variant(rng, [("float_ok_add", 2), ("float_ok_other", 2), ("float_bad_broadcast", 2), ("int_pow_ok", 2), ("int_pow_negative", 2),
+                       ("reshape_ok", 1), ("reshape_bad", 1), ("int_div_ok", 1), ("int_div_zero", 1), ("float_not_foldable", 2)])
     ver = 20
     if v.startswith("float"):
         k2 = f"float[3] k2 = {{{b}, {a}, 1.0}}" if v == "float_bad_broadcast" else f"float[2] k2 = {{{b}, {a}}}"
-        fop = rng.choice(["Add", "Add", "Mul", "Sub"])   # the same value names produced by different operators
+        # the same value names produced by different operators
+        fop = "Add" if v == "float_ok_add" else rng.choice(["Mul", "Sub"]) if v == "float_ok_other" else rng.choice(["Add", "Mul", "Sub"])
         first = f"c = {fop}(x, k2)" if v == "float_not_foldable" else f"c = {fop}(k1, k2)"
         return f"""<ir_version: 10, opset_import: ["" : {ver}]>
 agraph (float[2] x) => (float[?] y)
@@ -685,10 +686,10 @@ agraph ({xdecl}, float[{a * b}] z) => (float[?,?] out)
 
 # families whose members walk through declared variants: a batch takes one member per variant (capped), so that every
 # special path of the rule's check() is in every batch; other families vary only in parameters and get 3 members
-N_VARIANTS = {"hardswish": 7, "conv_affine": 5, "expand_binary": 5, "reshape_matmul": 7, "scatter_nd": 4, "rms_norm": 4, "pad_conv": 12, "reshape_reshape": 8, "fold_chain": 9, "slice_split": 7, "const_if": 7}
+N_VARIANTS = {"hardswish": 7, "conv_affine": 5, "expand_binary": 5, "reshape_matmul": 7, "scatter_nd": 4, "rms_norm": 4, "pad_conv": 12, "reshape_reshape": 8, "fold_chain": 10, "slice_split": 7, "const_if": 7}
 
 
-def members_per_batch(family: str, default: int, cap: int = 9) -> int:
+def members_per_batch(family: str, default: int, cap: int = 10) -> int:
     return min(cap, N_VARIANTS[family]) if family in N_VARIANTS else default
 
 
